@@ -19,6 +19,9 @@ def main(argv):
     from .common import Machinery, EXIT_MACHINERY
     try:
         from . import props
+        if cmd == "selftest":
+            from . import selftest
+            return selftest.main()
         if cmd == "replay":
             return props.replay(os.environ.get("VERIF_ARG"))
         if cmd not in props.REGISTRY:
